@@ -108,7 +108,7 @@ def run_gen():
     return rc == 0, out
 
 
-def coq_build(targets=None, timeout=3000):
+def coq_build(targets=None, timeout=3000, per_file_timeout=900):
     """full .vo build with coq_makefile (never -vos). Returns (ok, log)."""
     with Lock("coq"):
         srcs = coq_sources()
@@ -123,7 +123,8 @@ def coq_build(targets=None, timeout=3000):
             rc, out = sh("coq_makefile -f _CoqProject -o Makefile.coq", cwd=COQ)
             if rc != 0:
                 return False, out
-        cmd = ["make", "-f", "Makefile.coq", "-j%d" % NCPU, "-k"]
+        # every coqc runs under a shell timeout: a diverging tactic in one file must not block the rest
+        cmd = ["make", "-f", "Makefile.coq", "-j%d" % NCPU, "-k", "TIMECMD=timeout %d" % per_file_timeout]
         if targets:
             cmd += targets
         rc, out = sh(cmd, cwd=COQ, timeout=timeout)
@@ -423,7 +424,8 @@ def standard_proof_phase(v, pid, extra_checker=""):
     obligation of Properties/<pid>.v is discharged axiom-free."""
     ok_gen, gen_log = run_gen()
     bad = hygiene()
-    ok_build, mk_log = coq_build()
+    # only what Properties/<pid>.v depends on: a broken or slow file of another layer is not this check's business
+    ok_build, mk_log = coq_build(targets=["Properties/%s.vo" % pid])
     ob = property_obligations(pid)
     v.coverage["obligations"] = len(ob["theorems"])
     v.coverage["discharged"] = len(ob["discharged"]) if (ok_build and not bad) else \
